@@ -6,7 +6,7 @@ from .rhist import T0, T1, Alphabet, decode, max_options, run_history
 
 ALPHA = Alphabet(
     max_ctx=3,
-    add=[((T0,), "a", "ok"), ((T0, T1), "a", "ok"), ((T1, T0), "a", "badname"), ((T1,), "a", "none")],
+    add=[((T0,), "a", "ok"), ((T0, T1), "a", "ok"), ((T1, T0), "a", "badname"), ((T1,), "a", "none"), ((T1,), "a", "badcb0")],
     fac=[((T0,), "a", False, "ok"), ((T1, T0), "a", True, "ok"), ((T1,), "a", False, "nonetype")],
     look=[(T0, "a", "nowait"), (T1, "a", "await"), (T0, "a", "inject_async")],
     drop=True,
@@ -174,3 +174,89 @@ REUSE = Harness(
     stubs=STUBS_COMMON,
 )
 HARNESSES.append(REUSE)
+
+
+# ------------------------------------------------------------------------------ T-closing
+CLOSING_OPS = ["add_resource(T0)", "add_resource(T0+T1) with a teardown callback", "first lookup of a factory registered earlier (generation)",
+               "add_resource under a taken pair (fails)", "repeat lookup of an existing resource"]
+
+
+def closing_params(tier):
+    return [P("op1", 0, 4), P("op2", 0, 4), P("nested", 0, 1)]
+
+
+@guard
+def closing_fn(a, tier):
+    ops = [pick(a["op1"], 5), pick(a["op2"], 5)]
+    nested = pick(a["nested"], 2)
+    events = []
+    expected = []
+
+    async def main():
+        async with anyio.create_task_group() as tg:
+            async with Context() as outer:
+                ctx = Context() if nested else outer
+                if nested:
+                    await ctx.__aenter__()
+
+                async def listen(*, task_status):
+                    async with ctx.resource_added.stream_events() as stream:  # lives OUTSIDE the context's block
+                        task_status.started()
+                        async for ev in stream:
+                            events.append((tuple(ev.resource_types), ev.resource_name, ev.is_factory, ev.source is ctx))
+
+                ctx.add_resource(object(), "taken", [T1])
+                ctx.add_resource_factory(lambda: object(), "made", types=[T1])
+                await tg.start(listen)
+
+                def during_teardown():
+                    for n, op in enumerate(ops):
+                        name = f"late{n}"
+                        if op == 0:
+                            ctx.add_resource(object(), name, [T0])
+                            expected.append(((T0,), name, False, True))
+                        elif op == 1:
+                            ctx.add_resource(object(), name, [T0, T1], teardown_callback=lambda: None)
+                            expected.append(((T0, T1), name, False, True))
+                        elif op == 2:
+                            first = not any(e[1] == "made" for e in expected)
+                            ctx.get_resource_nowait(T1, "made")
+                            if first:
+                                expected.append(((T1,), "made", False, True))
+                        elif op == 3:
+                            try:
+                                ctx.add_resource(object(), "taken", [T0, T1])
+                            except Exception:
+                                pass
+                        else:
+                            ctx.get_resource_nowait(T1, "taken")
+
+                ctx.add_teardown_callback(during_teardown)
+                if nested:
+                    await ctx.__aexit__(None, None, None)
+            await anyio.wait_all_tasks_blocked()
+            tg.cancel_scope.cancel()
+
+    _, exc, _k = run(main)
+    summary = {"inside_a_teardown_callback": [CLOSING_OPS[o] for o in ops], "context": "nested" if nested else "root"}
+    if exc is not None:
+        return FAIL(f"closing:raised:{type(exc).__name__}", repr(exc), summary)
+    if events != expected:
+        return FAIL(f"closing:publications-during-teardown-not-announced-exactly-once:got={len(events)}:expected={len(expected)}",
+                    f"got {events} expected {expected}", summary)
+    return OK(summary, nontrivial=bool(expected))
+
+
+CLOSING = Harness(
+    prop="C18",
+    name="T-closing",
+    fn=closing_fn,
+    params=closing_params,
+    cube=lambda tier: 0,
+    title="publications made while the context is being torn down, with a listener that lives outside the context's block",
+    bound_text=lambda tier: "every sequence of two operations from {" + "; ".join(CLOSING_OPS) + "} inside a teardown callback of a root / nested context",
+    oracle="every successful add and first generation is announced exactly once on that context; failed adds and repeat lookups announce nothing",
+    outside="-",
+    stubs=STUBS_COMMON,
+)
+HARNESSES.append(CLOSING)
